@@ -62,6 +62,42 @@ pub fn profile(ev: Ev) -> Profile {
     p
 }
 
+/// A placeholder that compares equal (or nearly so) to `p` but is a different value: other sign of zero,
+/// other Decimal scale, other Number variant; failing that, a neighbour.
+fn twin_of(p: &Val) -> Val {
+    match p {
+        Val::F(v) if *v == 0.0 => Val::F(-*v),
+        Val::F(v) if v.is_nan() => Val::F(f64::from_bits(v.to_bits() ^ (1 << 63))),
+        Val::F(v) => Val::F(f64::from_bits(v.to_bits() ^ 1)),
+        Val::I(v) => Val::I(v ^ 1),
+        Val::D(d) => Val::D({
+            let mut t = *d;
+            if d.is_zero() {
+                t.set_sign_negative(!d.is_sign_negative());
+                t
+            } else if d.scale() < 27 {
+                // same value, two more trailing zeros
+                let mut r = *d;
+                r.rescale(d.scale() + 2);
+                if r == *d && r.scale() != d.scale() {
+                    r
+                } else {
+                    -*d
+                }
+            } else {
+                d.normalize()
+            }
+        }),
+        Val::C(a, b) if *a == 0.0 => Val::C(-*a, *b),
+        Val::C(a, b) => Val::C(f64::from_bits(a.to_bits() ^ 1), *b),
+        Val::NI(v) if v.unsigned_abs() < (1 << 53) => Val::NF(*v as f64),
+        Val::NI(v) => Val::NI(v ^ 1),
+        Val::NF(v) if *v == 0.0 => Val::NF(-*v),
+        Val::NF(v) if v.fract() == 0.0 && v.abs() < 9e15 => Val::NI(*v as i64),
+        Val::NF(v) => Val::NF(f64::from_bits(v.to_bits() ^ 1)),
+    }
+}
+
 fn unrelated(ev: Ev) -> Val {
     match ev {
         Ev::F64 => Val::F(123.25),
@@ -77,7 +113,7 @@ impl Prop for C14Prop {
         "C14"
     }
     fn rule(&self) -> String {
-        "Cases are (evaluator, expression E with 0..n occurrences of @, placeholder p from the boundary pool incl. NaN payloads, +-inf, -0.0, i64 extremes, Decimal values of distinct scales, Integer vs Float). Sub-checks: sweep (a fixed list of 14 forms, each evaluated consecutively on one thread with every pool placeholder in both orders, every answer compared with the literal-substituted form); identity (@, (@), +@ return p identically: to_bits incl. NaN payload / variant / value+scale+sign) for every pool value (exhaustive); substitution (E evaluated with p equals E with every @ replaced by a bracketed literal expression that was first verified to evaluate to exactly p, evaluated with an unrelated placeholder); independence (E without @ gives the same outcome for every placeholder); reference evaluation with @ bound (exact sub-languages). non-trivial = >=1 @ under >=1 operator and a placeholder different from the type's default; distinct by (evaluator,E,p).".into()
+        "Cases are (evaluator, expression E with 0..n occurrences of @, placeholder p from the boundary pool incl. NaN payloads, +-inf, -0.0, i64 extremes, Decimal values of distinct scales, Integer vs Float). Sub-checks: sweep (a fixed list of 14 forms, each evaluated consecutively on one thread with every pool placeholder in both orders, every answer compared with the literal-substituted form); identity (@, (@), +@ return p identically: to_bits incl. NaN payload / variant / value+scale+sign) for every pool value (exhaustive); substitution (E evaluated with p equals E with every @ replaced by a bracketed literal expression that was first verified to evaluate to exactly p, evaluated with an unrelated placeholder); independence (E without @ gives the same outcome for every placeholder); reference evaluation with @ bound (exact sub-languages); twin re-evaluation (the same text immediately re-evaluated with a placeholder that compares equal or adjacent - other sign of zero, other Decimal scale, other Number variant, neighbouring double - and then with the original again). non-trivial = >=1 @ under >=1 operator and a placeholder different from the type's default; distinct by (evaluator,E,p).".into()
     }
     fn subs(&self, tier: Tier) -> Vec<Sub> {
         let ident: u64 = Ev::ALL.iter().map(|ev| ph_pool(*ev).len() as u64 * 4).sum();
@@ -250,6 +286,30 @@ impl Prop for C14Prop {
                         }
                         None => sc.exclude("no exact literal spelling for this placeholder"),
                     }
+                }
+                // (e) the same text again with a "twin" placeholder (numerically equal or close, different representation)
+                // and then with p once more: a result remembered under the text, or under a placeholder compared
+                // with ==, shows here — for formulas of any length
+                if n_ans > 0 {
+                    let twin = twin_of(&case.ph);
+                    if let Some(t) = eval_normal(sc, ev, &case.input, &twin) {
+                        if let Some(l) = literal_for(&twin) {
+                            let q = unrelated(ev);
+                            if matches!(api::eval(ev, &l, &q), Outcome::Ok(ref v) if v.identical(&twin)) {
+                                if let Some(want) = eval_normal(sc, ev, &case.input.replace('@', &l), &q) {
+                                    if !t.same(&want) {
+                                        return Err(Failure::new(format!("{}/stale-placeholder", ev.name()), format!("{} (placeholder {})", want.show(), twin.show()), format!("{} right after evaluating the same text with placeholder {}", t.show(), case.ph.show())));
+                                    }
+                                }
+                            }
+                        }
+                    }
+                    if let Some(again) = eval_normal(sc, ev, &case.input, &case.ph) {
+                        if !again.same(&a) {
+                            return Err(Failure::new(format!("{}/stale-placeholder", ev.name()), format!("{} (as on the first call)", a.show()), format!("{} after an intervening call with placeholder {}", again.show(), twin.show())));
+                        }
+                    }
+                    sc.class("(e) twin placeholder re-evaluation agrees");
                 }
                 if n_ans >= 1 && grammar::op_count(&e) >= 1 && !case.ph.identical(&Val::default_for(ev)) {
                     sc.nontrivial(case.hash(), || sample(case, &a.show()));
